@@ -57,3 +57,53 @@ func VH_C05_tcpdial6() {
 	verifAssert("C05.tcp6.zoned-refused", verifImplies(zone != "", cerr != nil))
 	verifReach("C05.tcp6.allowed", cerr == nil)
 }
+
+// every listed non-public class, on either representation of an address (branch-free)
+func verifMustReject(ip net.IP) bool {
+	if len(ip) == 4 {
+		return verifMustRejectV4(ip)
+	}
+	if len(ip) != 16 {
+		return true
+	}
+	var hi uint8
+	for i := 0; i < 10; i++ {
+		hi |= ip[i]
+	}
+	var mid uint8
+	for i := 1; i < 15; i++ {
+		mid |= ip[i]
+	}
+	mapped := verifAll(hi == 0, ip[10] == 0xff, ip[11] == 0xff)
+	zero := verifAll(ip[0] == 0, mid == 0, ip[15] == 0)
+	loop := verifAll(ip[0] == 0, mid == 0, ip[15] == 1)
+	v6 := verifAny(zero, loop, verifAll(ip[0] == 0xfe, ip[1]&0xc0 == 0x80), ip[0] == 0xff, ip[0]&0xfe == 0xfc)
+	return verifAny(verifAll(mapped, verifMustRejectV4(ip[12:16])), verifAll(!mapped, v6))
+}
+
+// C05 (hostnames over UDP): whatever the resolver answers for a name, on the first and on later
+// datagrams of an association, nothing is sent to a non-public address
+func VH_C05_udp_domain() {
+	verifResetNet()
+	cl, specs, _ := verifMakeList(1, 1, false)
+	key := verifKey(specs[0].cipher, verifSecrets[specs[0].secret])
+	h := NewPacketHandler(defaultNatTimeout, cl, &verifUDPMetrics{}, nil)
+	client := &verifPacketConn{name: "client"}
+	name := []byte{3, 3, 'a', 'b', 'c', 0, 53, 'q'}
+	empty := []byte{3, 0, 0, 53, 'q'} // empty domain name
+	first := name
+	if verifFlag("first-empty") {
+		first = empty
+	}
+	client.reads = []verifRead{{data: verifPack(key, first), addr: verifClientAddrs[0]}, {data: verifPack(key, name), addr: verifClientAddrs[0]}}
+	h.Handle(client)
+	verifQuiesce()
+	for _, t := range verifTargets {
+		for _, w := range t.writes {
+			ua := w.addr.(*net.UDPAddr)
+			verifAssert("C05.udp-domain.destination-public", !verifMustReject(ua.IP))
+			verifReach("C05.udp-domain.forwarded", true)
+		}
+	}
+	verifReach("C05.udp-domain.second-on-association", len(verifTargets) == 1 && len(verifTargets[0].writes) == 2)
+}
